@@ -1,10 +1,11 @@
 /-
   Minidyn.Props.C20 — native-interpreter overrides are dispatched exactly and fall back safely.
 
-  Registrations are keyed by (kind, table ++ "|" ++ normWS text).  `dispatch_exact`: after
-  registering a matcher for (table, kind, text) the registry answers it for a request
-  (table', kind', text') iff kind = kind' and the keys are equal, and the keys of one table are
-  equal iff the whitespace-normalised texts are (`nativeKey_inj`).  `normWS` drops leading and
+  Registrations are keyed by (kind, table, normWS text) — a struct key in Go, an injective
+  encoding of the pair in the model.  After registering a matcher for (table, kind, text) the
+  registry answers it for a request (table', kind', text') iff the keys are equal, and two keys
+  are equal iff kind = kind', table = table' and the whitespace-normalised texts are equal
+  (`nativeKey_inj`, `matcherKey_inj`: for any bytes in table names and texts).  `normWS` drops leading and
   trailing white space and collapses inner runs (`normWS_idem`, examples); an anagram has a
   different normal form.  `fallback_match`: without a registration the verdict is the built-in
   interpreter's; `no_updater_fails`: an update without a registered updater fails with the
@@ -12,26 +13,33 @@
 -/
 import Minidyn.Model.Client
 import Minidyn.Lemmas.Assoc
+import Minidyn.Props.C13
 namespace Minidyn.Props.C20
 open Minidyn Minidyn.Client
 
-theorem nativeKey_inj (table e e' : Bytes) : nativeKey table e = nativeKey table e' ↔ Interp.normWS e = Interp.normWS e' := by
+/-- the registration key separates table and text: two keys are equal iff the tables are equal and
+    the whitespace-normalised texts are — whatever bytes the table name and the text contain -/
+theorem nativeKey_inj (table table' e e' : Bytes) :
+    nativeKey table e = nativeKey table' e' ↔ (table = table' ∧ Interp.normWS e = Interp.normWS e') := by
   unfold nativeKey
   constructor
-  · intro h
-    have := List.append_cancel_left (by simpa [List.append_assoc] using h : table ++ ([124] ++ Interp.normWS e) = table ++ ([124] ++ Interp.normWS e'))
-    simpa using this
-  · intro h; rw [h]
+  · intro h; exact C13.escape_sep_injective _ _ _ _ h
+  · rintro ⟨rfl, h⟩; rw [h]
 
-theorem matcherKey_inj (kind kind' : ExprKind) (table e e' : Bytes) :
-    matcherKey kind table e = matcherKey kind' table e' ↔ (kind = kind' ∧ Interp.normWS e = Interp.normWS e') := by
+theorem matcherKey_inj (kind kind' : ExprKind) (table table' e e' : Bytes) :
+    matcherKey kind table e = matcherKey kind' table' e' ↔
+      (kind = kind' ∧ table = table' ∧ Interp.normWS e = Interp.normWS e') := by
   unfold matcherKey
   constructor
   · intro h
     simp only [List.cons.injEq] at h
-    refine ⟨?_, (nativeKey_inj table e e').mp h.2⟩
+    refine ⟨?_, (nativeKey_inj table table' e e').mp h.2⟩
     cases kind <;> cases kind' <;> simp_all [kindByte]
-  · rintro ⟨rfl, h⟩; rw [(nativeKey_inj table e e').mpr h]
+  · rintro ⟨rfl, rfl, h⟩; rw [(nativeKey_inj table table e e').mpr ⟨rfl, h⟩]
+
+/-- the collision the concatenated key `table ++ "|" ++ text` had: table `tab|x` with text `y` against
+    table `tab` with text `x|y` — different keys now -/
+example : nativeKey [116, 97, 98, 124, 120] [121] ≠ nativeKey [116, 97, 98] [120, 124, 121] := by decide
 
 /-- registering a matcher makes exactly its own (kind, table, text) key answer with its id … -/
 theorem lookup_registered (c : Client) (t : Bytes) (kind : ExprKind) (e : Bytes) (id : Nat) :
